@@ -37,7 +37,9 @@ def mutation_events(case, run):
     out = []
     sigs = [run['sig_before']] + run['sig_at_probe'] + [run['sig_after']]
     nprobe = len(run['sig_at_probe'])
-    for name in ('main', 'other', 'vars', 'shortcuts'):
+    for name in ('main', 'other', 'child', 'vars', 'shortcuts'):
+        if name not in run['sig_before']:
+            continue
         for n in range(1, len(sigs)):
             if sigs[n][name] != sigs[n - 1][name]:
                 # probe n-1 follows step n-1; a change seen only at the end belongs to the
